@@ -45,12 +45,26 @@ def run_demo(wt, demo):
     return code, out[-1500:]
 
 
+def parse_checks(out, prop):
+    fired = {}
+    for ln in out.splitlines():
+        m = re.match(r"^\s+rule=(\S+) .*?construct=(\S+)", ln)
+        if m:
+            fired.setdefault(m.group(1).split(".")[0], []).append(f"{m.group(1)}:{m.group(2)}")
+    undec = [ln[:300] for ln in out.splitlines() if ln.startswith(("UNDECIDED", "ANALYSIS-ERROR"))]
+    return dict(checks_fired=fired, checks_undecided=undec[:10], detected_by_own_property=prop in fired)
+
+
 def main():
     ap = argparse.ArgumentParser()
     ap.add_argument("prop")
     ap.add_argument("seeddir")
     ap.add_argument("--suite", action="store_true")
     ap.add_argument("--demo")
+    ap.add_argument("--keep", help="name under /verif/seeded/ to store the confirmed seed")
+    ap.add_argument("--needs", default="", help="what the change needs in order to manifest")
+    ap.add_argument("--note", default="")
+    ap.add_argument("--in-worktree", action="store_true", help="run the checks with --repo <scratch worktree> instead of patching /repo")
     a = ap.parse_args()
     seeddir = os.path.abspath(a.seeddir)
     patch = os.path.join(seeddir, "patch.diff")
@@ -91,6 +105,9 @@ def main():
             res["suite_extra_failures"] = extra
             res["suite_wall_s"] = round(time.time() - t0)
             res["suite_tail"] = out.strip().splitlines()[-1] if out.strip() else ""
+        if a.in_worktree:
+            code, out = sh([os.path.join(VERIF, "check"), "all", "--no-write", "--repo", wt], cwd=VERIF)
+            res.update(parse_checks(out, a.prop))
         sh(["git", "apply", "-R", patch], cwd=wt)
         code, out = run_demo(wt, demo_wt)
         res["demo_without_change_exit"] = code
@@ -98,27 +115,48 @@ def main():
     finally:
         sh(["git", "-C", "/repo", "worktree", "remove", "--force", wt])
     # checks against /repo with the patch applied
-    code, out = sh(["git", "-C", "/repo", "status", "--porcelain"])
-    if out.strip():
-        res["error"] = "/repo not clean"
-        print(json.dumps(res, indent=1))
-        return
-    try:
-        code, out = sh(["git", "-C", "/repo", "apply", patch])
-        assert code == 0, out
-        code, out = sh([os.path.join(VERIF, "check"), "all", "--no-write"], cwd=VERIF)
-        fired = {}
-        cur = None
-        for ln in out.splitlines():
-            m = re.match(r"^\s+rule=(\S+) .*?construct=(\S+)", ln)
-            if m:
-                fired.setdefault(m.group(1).split(".")[0], []).append(f"{m.group(1)}:{m.group(2)}")
-        undec = [ln for ln in out.splitlines() if ln.startswith(("UNDECIDED", "ANALYSIS-ERROR"))]
-        res["checks_fired"] = fired
-        res["checks_undecided"] = undec[:10]
-        res["detected_by_own_property"] = a.prop in fired
-    finally:
-        sh(["git", "-C", "/repo", "checkout", "--", "."])
+    if not a.in_worktree:
+        code, out = sh(["git", "-C", "/repo", "status", "--porcelain"])
+        if out.strip():
+            res["error"] = "/repo not clean"
+            print(json.dumps(res, indent=1))
+            return
+        try:
+            code, out = sh(["git", "-C", "/repo", "apply", patch])
+            assert code == 0, out
+            code, out = sh([os.path.join(VERIF, "check"), "all", "--no-write"], cwd=VERIF)
+            res.update(parse_checks(out, a.prop))
+        finally:
+            sh(["git", "-C", "/repo", "checkout", "--", "."])
+    if a.keep:
+        import shutil
+
+        dst = os.path.join(VERIF, "seeded", a.keep)
+        os.makedirs(dst, exist_ok=True)
+        shutil.copy(patch, os.path.join(dst, "patch.diff"))
+        shutil.copy(demo, os.path.join(dst, os.path.basename(demo)))
+        if os.path.exists(os.path.join(seeddir, "notes.md")):
+            shutil.copy(os.path.join(seeddir, "notes.md"), os.path.join(dst, "notes.md"))
+        confirmed = res.get("demo_with_change_exit", 0) != 0 and res.get("demo_without_change_exit", 1) == 0 and res.get("imports") and not res.get("suite_extra_failures")
+        meta = dict(
+            property=a.prop,
+            breaks=f"property {a.prop}",
+            needs_to_manifest=a.needs,
+            note=a.note,
+            confirmed=bool(confirmed),
+            what_i_ran=[
+                "git worktree of /repo HEAD + git apply patch.diff",
+                f"demonstration {os.path.basename(demo)} with PYTHONPATH=<worktree>/src: exit {res.get('demo_with_change_exit')} with the change, exit {res.get('demo_without_change_exit')} without",
+                f"pinned suite with the change (pytest -n 6): extra failures beyond the 5 baseline always-fail tests: {res.get('suite_extra_failures')}" if a.suite else "pinned suite not run",
+                "./check all --no-write --repo <worktree with the patch applied>" if a.in_worktree else "git -C /repo apply patch.diff; ./check all --no-write; git -C /repo checkout -- .",
+            ],
+            checks_fired=res.get("checks_fired"),
+            checks_undecided=res.get("checks_undecided"),
+            detected_by_own_property=res.get("detected_by_own_property"),
+        )
+        with open(os.path.join(dst, "meta.json"), "w") as fh:
+            json.dump(meta, fh, indent=1)
+            fh.write("\n")
     print(json.dumps(res, indent=1))
 
 
